@@ -5,7 +5,7 @@
 set -u
 id=$1; n=$2; shift 2
 export GOFLAGS=-mod=mod GOPROXY=off GOSUMDB=off GOTOOLCHAIN=local
-wt=/tmp/seed/$id; out=/tmp/seed/out/$id
+wt=/tmp/seed/$id; out=${SEEDOUT:-/tmp/seed/out}/$id
 patch=$out/patch$n.diff; demo=$out/demo${n}_test.go; meta=$out/meta$n.json
 [ -f "$patch" ] && [ -f "$demo" ] || { echo "missing deliverables for $id/$n"; exit 2; }
 pkgdir=$(jq -r .demo_package_dir "$meta" 2>/dev/null | sed 's#^\./##; s#/$##')
